@@ -51,15 +51,32 @@ TECHNIQUE = 'offline event-log checker (conservation, never-after, exactly-once,
 
 NAMES = ['raw', 'qcow2', 'vhd', 'vhdx', 'vmdk', 'vdi', 'qed', 'iso', 'gpt', 'luks']
 EXC_POOL = ['ValueError', 'RuntimeError', 'KeyError', 'struct.error', 'MemoryError', 'ImageFormatError', 'Custom',
-            'UnicodeDecodeError']
+            'UnicodeDecodeError', 'Unprintable', 'NoArgs']
 
 
 class Injected(Exception):
     pass
 
 
+class Unprintable(Exception):
+    """A parser error whose own rendering fails: the isolation must not depend on being able to print the fault."""
+
+    def __str__(self):
+        raise RuntimeError('__str__ of the injected exception raised')
+    __repr__ = __str__
+
+
+class NoArgs(Exception):
+    def __init__(self, tag):
+        super().__init__()          # str(e) == ''
+
+
 def make_exc(name, tag):
     F = sl.fi()
+    if name == 'Unprintable':
+        return Unprintable(tag)
+    if name == 'NoArgs':
+        return NoArgs(tag)
     if name == 'struct.error':
         return struct.error(tag)
     if name == 'ImageFormatError':
@@ -329,7 +346,7 @@ def evaluate(ctx, case):
         if rec['fired']:
             ctx.clause('line-failpoint-fired')
             ctx.h('line failpoint site', rec['fired'])
-    nat = [e for e in rec['log'] if e[0] == 'raise' and not isinstance(e[3], Injected) and
+    nat = [e for e in rec['log'] if e[0] == 'raise' and not isinstance(e[3], (Injected, Unprintable, NoArgs)) and
            'injected into' not in str(e[3])]
     if nat:
         ctx.clause('natural-fault-observed')
